@@ -203,6 +203,7 @@ class DeadlineRun:
         self.viol = []
         self.probes = {}
         self.results = []
+        self.exited = []
         self.nontrivial = False
 
     def v(self, rule, detail):
@@ -276,9 +277,11 @@ class DeadlineRun:
                     except Cancelled:
                         ev.append(("exit", kind, sc.cancelled_caught))
                         self.h.rec("exit-cancelled", ti, kind)
+                        self.exited.append((ti, kind, sc, sc.cancel_called, current_time() - t0))
                         raise
                     ev.append(("exit", kind, sc.cancelled_caught))
                     self.h.rec("exit", ti, kind, sc.cancelled_caught)
+                    self.exited.append((ti, kind, sc, sc.cancel_called, current_time() - t0))
 
         try:
             await run(prog)
@@ -295,6 +298,14 @@ class DeadlineRun:
         async with create_task_group() as tg:
             for ti, prog in enumerate(self.case["tasks"]):
                 tg.start_soon(self.run_task, ti, prog, name=f"t{ti}")
+        # "never after the scope was left": wait until every deadline that was ever set lies in the past (they
+        # are at most 2 virtual seconds after the statement that set them), then look at the scopes again
+        await sleep(3)
+        for ti, kind, sc, called, t in self.exited:
+            if sc.cancel_called != called:
+                self.v("fired_after_exit", f"task {ti}: a {kind} scope left at t={t} with cancel_called={called} reports "
+                                           f"cancel_called={sc.cancel_called} later: its deadline fired after the scope was left")
+                break
 
     def execute(self):
         sim = self.sim
